@@ -49,6 +49,8 @@ def configs(tier):
             out.append(("nperbin", N, False, False, 2, True, True))
     out.append(("histogram_more", 2, False, True, 2, False, False))
     out.append(("histogram_more", 3, False, False, 2, False, False))
+    # weighted deviation of a bin of tied values, over IEEE floats (half precision; double width does not finish)
+    out.append(("fpwstd", 2, False, True, 16, False, False))
     return out
 
 
@@ -61,8 +63,29 @@ def check_sqrt(cx, label, got, want_sq):
     cx.check_eq(label, got * got, want_sq)
 
 
+def harness_fpwstd(cx, cfg):
+    """per-bin weighted deviation (wmom, what Binner stores as wstd) on a bin whose members are tied, in IEEE
+    arithmetic: the deviation about the weighted mean is never NaN -- which a variance written as
+    <x^2> - <x>^2 does not deliver (its radicand goes negative)"""
+    import z3
+    sort = z3.Float16()
+    m = _mod()
+    v = cx.fp("v", 1.0, 64.0, sort=sort)
+    w0 = cx.fp("w0", 0.0625, 16.0, sort=sort)
+    w1 = cx.fp("w1", 0.0625, 16.0, sort=sort)
+    wmean, werr, wsdev = m.wmom(symnp.array([v, v]), symnp.array([w0, w1]), sdev=True)
+    sd = wsdev if not isinstance(wsdev, symnp.SArr) else wsdev.tolist()
+    sd = sd[0] if isinstance(sd, list) else sd
+    nan = symx.wrap(z3.fpIsNaN(sd.t))
+    cx.check("IEEE arithmetic (f16): weighted deviation of tied values is not NaN", symx.sym_not(nan))
+    # its size (a few units in the last place of the value) is not decided: that query does not finish in
+    # z3 even at half precision (300 s); the replay measures it on doubles
+
+
 def harness(cx, cfg):
     mode, N, have_y, have_w, k, flag, limits = cfg
+    if mode == "fpwstd":
+        return harness_fpwstd(cx, cfg)
     m = _mod()
     m.have_chist = False
     x = [cx.real("x%d" % i) for i in range(N)]
@@ -281,6 +304,28 @@ def replay(cand):
     mode, N, have_y, have_w, k, flag, limits = cand["cfg"]
     mdl = cand["model"] or {}
     no = {"reproduced": False, "what": "agrees", "key": None}
+    if mode == "fpwstd":
+        # the counterexample lives in half precision; in doubles the same effect shows on tied values of any
+        # size: the model's values first, then a family of tied bins through histogram(weights=)
+        trials = []
+        try:
+            trials.append((model_float(mdl["v"]), [model_float(mdl["w0"]), model_float(mdl["w1"])]))
+        except Exception:
+            pass
+        rng = np.random.RandomState(3)
+        for v in (0.1, 1.0 / 3.0, 1.7, 123.456, 1e6 + 0.1, 3.3e8, 0.7, 2.2e-3):
+            for _ in range(25):
+                n = int(rng.randint(2, 6))
+                trials.append((v, rng.uniform(0.1, 3.0, n).tolist()))
+        for v, ws in trials:
+            x = np.full(len(ws), v, dtype="f8")
+            wmean, werr, wsdev = su.wmom(x, np.array(ws), sdev=True)
+            if not np.isfinite(wsdev) or wsdev > 64 * np.finfo("f8").eps * abs(v):
+                h = su.histogram(x, weights=np.array(ws), nbin=1, min=v - 1.0, max=v + 1.0, more=True)
+                return {"reproduced": True, "key": "ieee:wstd-tied",
+                        "what": "a bin of %d tied values %r with weights %r: weighted deviation %r (wmom) / wstd %r (histogram), expected 0 up to a few ulp"
+                                % (len(ws), v, ws, float(wsdev), h.get("wstd", [None])[0] if isinstance(h, dict) else None)}
+        return no
 
     def vec(name, default=0.0):
         return np.array([model_float(mdl.get("%s%d" % (name, i), default)) for i in range(N)], dtype="f8")
@@ -392,5 +437,5 @@ MANIFEST_ENTRY = {
     "engine": "symx",
     "technique": "bounded symbolic execution (symx/z3, nonlinear real arithmetic) of Binner.dohist/calc_stats/_hist_by_num/_merge_last and histogram(more=True) with data, second variable, weights, limits and bin size as solver variables; bin membership from the definition, every per-bin statistic compared with its direct formula (roots on squares), occupancy pattern, low/high and sentinel asserted per path; counterexamples replayed on the real library (both engines)",
     "text": "On every feasible path within the size bound: bin membership follows the definition, edges/centres are min+i*binsize (+1/2), mean/std/median and (n>=2) the standard errors of x and y equal direct computation from the members, whist and the weighted mean/deviation/both errors likewise, empty bins carry -9999; equal-occupancy bins hold exactly nperbin consecutive sorted data (short last bin merged on request), low/high are the extreme members and rev indexes the original array.",
-    "note": "N<=3/4, <=3 bins, nperbin 1..N; pure-Python engine (C05 proves the engines identical); single-member bins: error columns unconstrained",
+    "note": "N<=3/4, <=3 bins, nperbin 1..N; pure-Python engine (C05 proves the engines identical); single-member bins: error columns unconstrained; floats as reals except one kernel: the weighted deviation of a bin of two tied values is never NaN in IEEE half precision (its size is not decided)",
 }
